@@ -132,6 +132,10 @@ func goNodeStr(p device.EFIDevicePaths) string {
 		return fmt.Sprintf("file:%s:%s:text=%s", hdr(n.EFIDevicePath), hx([]byte(n.PathName)), hx([]byte(fmtSafe(n))))
 	case device.FirmwareFielMediaDevicePath:
 		return fmt.Sprintf("fw:%s:%s", hdr(n.EFIDevicePath), hx(n.FirmwareFileName[:]))
+	case device.VendorMessagingDevicePath:
+		return fmt.Sprintf("vendor:%s:%s", hdr(n.EFIDevicePath), hx(wireGUID(n.Guid)))
+	case device.EFIDevicePath:
+		return fmt.Sprintf("generic:%s", hdr(n))
 	case device.USBMessagingDevicePath:
 		return fmt.Sprintf("usb:%s:%d:%d", hdr(n.EFIDevicePath), n.USBParentPortNumber, n.Interface)
 	}
